@@ -922,6 +922,10 @@ def replay(ctx, data):
     d = data["data"]
     kind = d.get("kind")
     boot.build_all()
+    if kind == "corr-parse" and data["key"].startswith("stop:"):
+        # the argument tuple was out of the Fortran range: run the calculation itself
+        d = dict(d, sph=[[p[1] for p in d["pos"]], [p[2] for p in d["pos"]]], scat=dict(d["scat"], center=[0.0, 0.0, 0.0]))
+        kind = "explore-survive"
     if kind == "explore-survive":
         sp = d["scat"]
         if d.get("sph"):
